@@ -101,3 +101,26 @@ TEXT["C08"] = dict(
                "values are enumerated; random tuples cover m up to 10, lengths around powers of two and "
                "very unequal lengths, both orders, and a value type whose order is coarser than equality.",
     level_note="trusts the brute-force reference; sequences are non-empty as the property requires")
+TEXT["C01"] = dict(
+    engine="differential",
+    design_ref="DESIGN.md section 4, C01",
+    technique="runtime lock-step differential monitor vs std ordered containers over random operation histories, per node-capacity configuration",
+    level_text="Random operation histories (all public operations incl. const overloads, copies, assignment, "
+               "swap, bulk_load) run on the real B+ tree containers and on std::set/multiset/map/multimap; "
+               "after every operation returned values, iterator ranks and the complete forward/reverse "
+               "iteration are compared. Node capacities from 4 up (leaf and inner chosen independently, "
+               "asymmetric and odd), both in-node search strategies, three key orders incl. a stateful one, "
+               "three key types. Coverage of splits/merges/root growth per configuration is measured. "
+               "Exploration: held on the histories generated.",
+    level_note="trusts libstdc++'s ordered containers; equal-key order is left free as the property says")
+TEXT["C02"] = dict(
+    engine="ledger+alloc",
+    design_ref="DESIGN.md section 4, C02",
+    technique="runtime invariant walker + verify() + arena-checking allocator + element-lifetime ledger after every mutating op, under ASan+UBSan",
+    level_text="The same histories as C01 run under ASan with four monitors after every mutating operation: "
+               "the tree's own verify(), an independent structural walker through the friend hook (so a "
+               "weakened verify() is still caught), a stateful arena-checking allocator (every node returned "
+               "exactly once, to the arena it came from) and a ledger of heap-owning elements (no element "
+               "outlives its storage or is destroyed twice; nothing alive after destruction).",
+    level_note="trusts the walker and ledger code in /verif/lib and harness; TLX_BTREE_DEBUG assertions are "
+               "enabled as additional internal monitors")
